@@ -242,7 +242,11 @@ func observeArgv(sc *Scenario, ord Order, st *obsStats, shared []string) (out st
 					getoptions.VerifSetExit(oldExit)
 				}()
 				opt := getoptions.New()
-				opt.Self("prog", "a program")
+				if sc.SelfEmpty {
+					opt.Self("", "a program")
+				} else {
+					opt.Self("prog", "a program")
+				}
 				opt.SetMode(getoptions.Mode(sc.Mode))
 				opt.SetUnknownMode(getoptions.UnknownMode(sc.Unknown))
 				if sc.Lower {
@@ -284,12 +288,22 @@ func observeArgv(sc *Scenario, ord Order, st *obsStats, shared []string) (out st
 						}
 					}
 					if err == nil {
+						var rw bytes.Buffer
+						getoptions.Writer = &rw
+						a1, rest, e1 := opt.GetRequiredArg(rem)
+						_, _, e2 := opt.GetRequiredArgInt(rest)
+						fmt.Fprintf(&b, "required-arg=%q %s %s writer=%q\n", a1, errClass(e1), errClass(e2), rw.String())
+						getoptions.Writer = &w
 						derr := opt.Dispatch(context.Background(), rem)
 						fmt.Fprintf(&b, "dispatch.error=%s\ndispatch.ran=%s\n", errClass(derr), ran)
 					}
 					for _, n := range nodes {
 						h := n.opt.Help()
 						fmt.Fprintf(&b, "help %s=%q\n", n.path, h)
+						if n.path == "prog" {
+							fmt.Fprintf(&b, "help-sections %s=%q|%q|%q|%q\n", n.path, n.opt.Help(getoptions.HelpName), n.opt.Help(getoptions.HelpSynopsis),
+								n.opt.Help(getoptions.HelpCommandList), n.opt.Help(getoptions.HelpOptionList))
+						}
 						// the same definition object asked again must answer the same
 						if h2 := n.opt.Help(); h2 != h {
 							fmt.Fprintf(&b, "NONIDEMPOTENT help %s: second rendering differs: %s\n", n.path, firstDiff(h, h2))
